@@ -155,7 +155,8 @@ class SchemaParsingError(Exception):
 
 # The schema is meant to allow multi-line strings, but in practice
 # it does not due to scanf() shenanigans. This is fine.
-_SCHEMA_LINE_TOKENS_RE = re.compile(r'\A\s*([^\s]+)(\s+([^\t\r\n]+))?$')
+# The format's notion of whitespace is C's isspace(), not Unicode's: a value may well start with U+3000 or U+00A0
+_SCHEMA_LINE_TOKENS_RE = re.compile(r'\A\s*([^\s]+)(\s+([^\t\r\n]+))?$', re.ASCII)
 
 
 def parse_schema_line(line: str):
